@@ -124,7 +124,7 @@ impl SwiftField for Field25P {
         Self: Sized,
     {
         // Field25P has account on first line and BIC on second
-        let lines: Vec<&str> = input.split('\n').collect();
+        let lines: Vec<&str> = input.lines().collect();
 
         if lines.is_empty() {
             return Err(ParseError::InvalidFormat {
